@@ -94,7 +94,17 @@ def compile_one(src, variant, hh):
         if r.returncode != 0:
             raise RuntimeError("compile failed: %s\n%s" % (src, r.stderr[-4000:]))
         os.replace(tmp, obj)
+    else:
+        _touch(obj)
     return obj, key
+
+
+def _touch(p):
+    """mark a cache entry as just used (atime is unreliable on relatime mounts)"""
+    try:
+        os.utime(p, None)
+    except OSError:
+        pass
 
 
 def build_lib(variant="scalar"):
@@ -118,26 +128,31 @@ def build_lib(variant="scalar"):
             if r.returncode != 0:
                 raise RuntimeError("link failed:\n" + r.stderr[-4000:])
             os.replace(tmp, lib)
+        else:
+            _touch(lib)
         prune()
         return lib
 
 
-def prune(max_bytes=6 << 30):
-    """Keep the cache bounded: drop oldest objects/libs beyond max_bytes."""
+def prune(max_bytes=20 << 30):
+    """Keep the cache bounded: drop the least recently used objects/libs beyond max_bytes.  Files used within the last two hours
+    are never dropped (another check may be running with them)."""
     ents = []
     for dp, _, fn in os.walk(CACHE):
         for f in fn:
             p = os.path.join(dp, f)
             try:
                 st = os.stat(p)
-                ents.append((st.st_atime, st.st_size, p))
+                ents.append((max(st.st_atime, st.st_mtime), st.st_size, p))
             except OSError:
                 pass
     tot = sum(e[1] for e in ents)
     if tot <= max_bytes:
         return
-    for _, sz, p in sorted(ents):
-        if p.endswith(".lock"):
+    import time
+    now = time.time()
+    for at, sz, p in sorted(ents):
+        if p.endswith(".lock") or now - at < 7200:
             continue
         try:
             os.remove(p)
@@ -182,6 +197,8 @@ def build_harness(src, name, variant="scalar", extra=(), link_lib=True, deps=())
         if r.returncode != 0:
             raise RuntimeError("harness build failed: %s\n%s" % (" ".join(cmd), r.stderr[-6000:]))
         os.replace(tmp, out)
+    else:
+        _touch(out)
     return out
 
 
